@@ -593,7 +593,16 @@ impl Server {
             })
             .unwrap();
 
-        let changes = action_provider.changes(target_node_id, self).unwrap();
+        let mut changes = action_provider.changes(target_node_id, self).unwrap();
+
+        // an update replaces the whole document: keep the front matter of the note
+        for change in changes.iter_mut() {
+            if let action::Change::Update(update) = change {
+                if let Some(meta) = self.database.graph().front_matter(&update.key) {
+                    update.markdown = format!("---\n{}---\n\n{}", meta, update.markdown);
+                }
+            }
+        }
 
         let mut action = code_action.clone();
         action.edit = Some(WorkspaceEdit {
